@@ -19,6 +19,7 @@ package cwriter
 //@   modifies nothing
 //@   ensures  dims: err == nil ==> width == returned("golang.org/x/sys/unix.IoctlGetWinsize", 0).Col && height == returned("golang.org/x/sys/unix.IoctlGetWinsize", 0).Row
 //@   ensures  failed: err != nil ==> returned("golang.org/x/sys/unix.IoctlGetWinsize", 1) != nil
+//@   ensures  range: err == nil ==> 0 <= width && width <= 65535 && 0 <= height && height <= 65535
 
 //@ func (escWriter).ansiCuuAndEd
 //@   props    C04 C02
@@ -52,7 +53,22 @@ package cwriter
 
 // New is not verified (copy into a byte slice is outside the string model): its contract is
 // assumed and listed as such.
+// the size probes installed by New: none for an output that is not a terminal, the kernel's for one that is
+//@ func New$1
+//@   props    C04 C02 C07
+//@   assumes  errset: global("github.com/vbauerster/mpb/v8/cwriter.ErrNotTTY") != nil // the exported error variable is not reset by the user
+//@   ensures  none: result2 == global("github.com/vbauerster/mpb/v8/cwriter.ErrNotTTY")
+//@ func New$2
+//@   props    C04 C02 C07
+//@   ensures  kernel: called("GetSize") == old(called("GetSize")) + 1 && calledWith("GetSize", 0) == fd
+//@              && result0 == returned("GetSize", 0) && result1 == returned("GetSize", 1) && result2 == returned("GetSize", 2)
 //@ func New
-//@   props    C04 C02
-//@   trusted
-//@   ensures  result != nil && fresh(result) && result.Buffer != nil && result.out == out && result.termSize != nil && wkey(result.out) != result.Buffer
+//@   props    C04 C02 C07
+//@   requires out != nil
+//@   ensures  file: hasType(out, "*os.File") ==> called("IsTerminal") == old(called("IsTerminal")) + 1 && calledWith("IsTerminal", 0) == returned("(*os.File).Fd", 0)
+//@              && result.fd == returned("(*os.File).Fd", 0) && result.terminal == returned("IsTerminal", 0) // the output's own descriptor is the one probed
+//@   ensures  other: !hasType(out, "*os.File") ==> !result.terminal && called("IsTerminal") == old(called("IsTerminal"))
+//@   ensures  a: result != nil && fresh(result)
+//@   ensures  b: result.Buffer != nil && result.out == out
+//@   ensures  c: result.termSize != nil
+//@   ensures  d: wkey(result.out) != result.Buffer
